@@ -486,8 +486,12 @@ func (t *tOps) remove(fd storage.FileDesc) {
 		if t.evictRemoved && t.blockCache != nil {
 			t.blockCache.EvictNS(uint64(fd.Num))
 		}
-		// Try to reuse file num, useful for discarded transaction.
-		t.s.reuseFileNum(fd.Num)
+		// Try to reuse file num, useful for discarded transaction. Cached blocks
+		// are keyed by file number, so the number may only be reused when no
+		// block of the removed table can still be cached.
+		if t.blockCache == nil || t.evictRemoved {
+			t.s.reuseFileNum(fd.Num)
+		}
 	})
 }
 
